@@ -117,5 +117,247 @@ impl<'a> LatticeBuilder<'a> {
         proof { assert(added.subrange(0, added.len() as int) =~= added); }
 //@end
 }
+
+/// R14s: `slice.last().unwrap()`
+#[verifier::external_body]
+fn slice_last<T>(s: &[T]) -> (r: &T) requires s@.len() > 0 ensures *r == s@.last() { s.last().unwrap() }
+
+/// what one processed position leaves behind (used between the stages of one iteration of build_lattice)
+spec fn stage_ok(b0: LatticeBuilder, b: LatticeBuilder, lp: Lattice, p: int) -> bool {
+    &&& same_env(b0, b) && lat_wf(*b.lattice, *b.matrix) && b.lattice.size == b0.input.sp_nch() + 1
+    &&& cost_bound(*b.lattice) && frontier(*b.lattice, p) && inserted(lp, *b.lattice, b.node_buffer@)
+}
+/// rows of the lattice = candidates of the positions before p + what was inserted at p so far
+proof fn lemma_rows_now(b0: LatticeBuilder, lp: Lattice, l: Lattice, p: int, done: Seq<Node>)
+    requires lattice_is(b0, lp, p), inserted(lp, l, done)
+    ensures forall|e: int| 0 <= e < l.ends_full@.len() ==> (#[trigger] l.ends_full@[e])@ == row_of(log_upto(b0, p) + done, e)
+{
+    assert forall|e: int| 0 <= e < l.ends_full@.len() implies (#[trigger] l.ends_full@[e])@ == row_of(log_upto(b0, p) + done, e) by {
+        lemma_row_of_concat(log_upto(b0, p), done, e);
+    }
+}
+proof fn lemma_room(b0: LatticeBuilder, lp: Lattice, l: Lattice, conn: ConnectionMatrix, p: int, done: Seq<Node>, added: Seq<Node>)
+    requires
+        0 <= p < b0.input.sp_nch(), reach(b0, p), rows_fit(b0), is_prefix(done + added, cand(b0, p)),
+        lattice_is(b0, lp, p), inserted(lp, l, done), lat_wf(l, conn),
+    ensures rows_room(l, added)
+{
+    lemma_rows_now(b0, lp, l, p, done);
+    assert forall|e: int| 0 <= e < l.ends_full@.len() implies (#[trigger] l.ends@[e])@.len() <= l.ends_full@[e]@.len() + (if e == 0 { 1int } else { 0int }) by {}
+    lemma_rows_room(b0, l, p, done, added);
+}
+/// end of a position: the log grows by the candidates of p
+proof fn lemma_position_done(b0: LatticeBuilder, lp: Lattice, l: Lattice, p: int)
+    requires lattice_is(b0, lp, p), inserted(lp, l, cand(b0, p)), reach(b0, p), 0 <= p
+    ensures lattice_is(b0, l, p + 1)
+{
+    lemma_rows_now(b0, lp, l, p, cand(b0, p));
+    assert(log_upto(b0, p + 1) == log_upto(b0, p) + cand(b0, p));
+}
+
+impl<'a> LatticeBuilder<'a> {
+//@extract sudachi/src/analysis/stateful_tokenizer.rs :: impl<'a> LatticeBuilder<'a> :: fn build_lattice
+//@  rw R6 1 custom
+//@  | for \(ch_off, &byte_off\) in self\.input\.curr_byte_offsets\(\)\.iter\(\)\.enumerate\(\) \{
+//@  > let __offs = self.input.curr_byte_offsets(); let mut __it: usize = 0; while __it < __offs.len() { let ch_off = __it; let byte_off = __offs[__it]; __it += 1;
+//@  rw R14 1 custom
+//@  | for e in self\.lexicon\.lookup\(input_bytes, byte_off\) \{
+//@  > let __es = self.lexicon.lookup_vec(input_bytes, byte_off); let mut __k: usize = 0; while __k < __es.len() { let e = &__es[__k]; __k += 1;
+//@  rw Rcl 1 custom
+//@  | node\.clone\(\)
+//@  > node_clone(&node)
+//@  rw R16 * custom
+//@  | CategoryType::NOOOVBOW \| CategoryType::NOOOVBOW2
+//@  > CategoryType::NOOOVBOW.union(CategoryType::NOOOVBOW2)
+//@  rw R6v 1 custom
+//@  | for provider in self\.oov_providers \{
+//@  > let mut __ip: usize = 0; while __ip < self.oov_providers.len() { let provider = &self.oov_providers[__ip]; __ip += 1;
+//@  rw R14s 1 custom
+//@  | self\.oov_providers\.last\(\)\.unwrap\(\)
+//@  > slice_last(self.oov_providers)
+//@  ret r
+//@  spec
+        requires
+            builder_ok(*old(self)), rows_fit(*old(self)), entries_ok(*old(self)),
+            old(self).lattice.ends@.len() == old(self).lattice.ends_full@.len(), old(self).lattice.ends@.len() == old(self).lattice.indices@.len(),
+        ensures
+            same_env(*old(self), *final(self)),
+            r is Ok ==> ({
+                let n = old(self).input.sp_nch();
+                // C02: a well-formed lattice (every stored node carries the minimum over its left neighbours), EOS connected to the best
+                &&& lat_wf(*final(self).lattice, *final(self).matrix) && final(self).lattice.size == n + 1
+                &&& final(self).lattice.eos is Some && final(self).lattice.eos->Some_0.1 != i32::MAX
+                &&& is_best(*final(self).lattice, *final(self).matrix, eos_node(*final(self).lattice), final(self).lattice.eos->Some_0.0, final(self).lattice.eos->Some_0.1 as int)
+                // C13: at every boundary the lattice holds exactly the prescribed candidates ending there
+                &&& lattice_is(*old(self), *final(self).lattice, n)
+                // C03: every reachable position received at least one candidate
+                &&& forall|p: int| 0 <= p < n && reach(*old(self), p) ==> #[trigger] bits_final(*old(self), p) != 0
+            }),
+//@  atstart
+        let ghost b0 = *self;
+        let ghost nch = self.input.sp_nch();
+//@  after self.lattice.reset(
+        let ghost lf = *self.lattice;
+        proof { lemma_fresh(b0, lf, nch); }
+//@  loop 1
+            invariant
+                b0 == *old(self), same_env(b0, *self), builder_ok(b0), rows_fit(b0), entries_ok(b0), nch == b0.input.sp_nch(),
+                __offs@.len() == nch, forall|k: int| 0 <= k < nch ==> #[trigger] __offs@[k] == b0.input.sp_c2b(k), __it <= nch,
+                input_bytes@ == b0.input.sp_bytes(),
+                lat_wf(*self.lattice, *self.matrix), self.lattice.size == nch + 1, cost_bound(*self.lattice), frontier(*self.lattice, __it as int),
+                lattice_is(b0, *self.lattice, __it as int),
+                forall|p: int| 0 <= p < __it && reach(b0, p) ==> #[trigger] bits_final(b0, p) != 0,
+            decreases nch - __it
+//@  loopstart 1
+            let ghost lp = *self.lattice;
+            let ghost p = __it as int;
+//@  before continue; #1
+                proof {
+                    // nothing ends here: the position cannot be reached and contributes nothing
+                    assert(p >= 1);
+                    assert(lp.ends@[p]@.len() == lp.ends_full@[p]@.len());
+                    assert(log_upto(b0, p + 1) == log_upto(b0, p));
+                    assert(!reach(b0, p));
+                    assert forall|e: int, k: int| has(lp, e, k) implies (#[trigger] node_at(lp, e, k)).begin <= p + 1 by {}
+                }
+//@  before self.node_buffer.clear();
+            proof {
+                if p >= 1 { assert(lp.ends@[p]@.len() == lp.ends_full@[p]@.len()); }
+                assert(reach(b0, p));
+                assert(__offs@[p] == b0.input.sp_c2b(p));
+            }
+//@  after self.node_buffer.clear();
+            proof { lemma_inserted_refl(lp); }
+            let ghost es = entries_at(b0, p);
+//@  loop 2
+                invariant
+                    b0 == *old(self), same_env(b0, *self), builder_ok(b0), rows_fit(b0), entries_ok(b0), nch == b0.input.sp_nch(), p == ch_off, 0 <= p < nch, reach(b0, p),
+                    byte_off == b0.input.sp_c2b(p), input_bytes@ == b0.input.sp_bytes(), lattice_is(b0, lp, p),
+                    es == entries_at(b0, p), __es@ == es, __k <= es.len(),
+                    stage_ok(b0, *self, lp, p),
+                    self.node_buffer@ == dict_nodes(*b0.lexicon, *b0.input, p, es, __k as int),
+                    created.bits == dict_bits(*b0.input, p, es, __k as int),
+                decreases es.len() - __k
+//@  loopstart 2
+                let ghost kk = __k as int;
+                let ghost la = *self.lattice;
+                let ghost done = self.node_buffer@;
+//@  before let (left_id, right_id, cost) =
+                proof {
+                    assert(*e == es[kk]);
+                    assert(keep(*b0.input, es[kk]));
+                    assert(b0.input.sp_c2b(p) < es[kk].end <= b0.input.sp_bytes().len() && is_char_boundary(b0.input.sp_bytes(), es[kk].end as int));
+                }
+//@  before self.node_buffer.push(
+                proof {
+                    assert(p < end_c <= nch);
+                    assert(node == dict_node(*b0.lexicon, *b0.input, p, es[kk]));
+                }
+//@  before self.lattice.insert(node, self.matrix);
+                proof {
+                    let dn = dict_node(*b0.lexicon, *b0.input, p, es[kk]);
+                    assert(self.node_buffer@ == done.push(dn));
+                    assert(done.push(dn) == dict_nodes(*b0.lexicon, *b0.input, p, es, kk + 1));
+                    // room in the row, no overflow, left-to-right order
+                    lemma_dict_prefix(*b0.lexicon, *b0.input, p, es, kk + 1, es.len() as int);
+                    lemma_prefix_refl_concat(cand_dict(b0, p), cand_oov(b0, p) + cand_fallback(b0, p));
+                    assert(cand(b0, p) =~= cand_dict(b0, p) + (cand_oov(b0, p) + cand_fallback(b0, p)));
+                    lemma_prefix_trans(done.push(dn), cand_dict(b0, p), cand(b0, p));
+                    assert(done + seq![dn] =~= done.push(dn));
+                    lemma_room(b0, lp, la, *self.matrix, p, done, seq![dn]);
+                    assert(row_of(seq![dn], dn.end as int).len() >= 0);
+                    lemma_no_overflow(la, *self.matrix, dn);
+                    assert forall|e2: int, k2: int| has(la, e2, k2) implies (#[trigger] node_at(la, e2, k2)).begin != dn.end by {}
+                }
+//@  after self.lattice.insert(node, self.matrix);
+                proof {
+                    let dn = dict_node(*b0.lexicon, *b0.input, p, es[kk]);
+                    lemma_after_insert(la, *self.lattice, *self.matrix, dn, self.lattice.ends@[dn.end as int]@.last().total_cost, p);
+                    lemma_inserted_push(lp, la, *self.lattice, done, dn);
+                }
+//@  before if !self #2
+            let ghost cd = cand_dict(b0, p);
+            let ghost bd = bits_dict(b0, p);
+            proof {
+                assert(self.node_buffer@ == cd && created.bits == bd);
+                assert((0x4000_0000u32 | 0x8000_0000u32) == 0xC000_0000u32) by (bit_vector);
+            }
+//@  loop 3
+                    invariant
+                        b0 == *old(self), same_env(b0, *self), builder_ok(b0), rows_fit(b0), entries_ok(b0), nch == b0.input.sp_nch(), p == ch_off, 0 <= p < nch, reach(b0, p),
+                        lattice_is(b0, lp, p), oov_allowed(*b0.input, p), cd == cand_dict(b0, p), bd == bits_dict(b0, p),
+                        __ip <= self.oov_providers@.len(),
+                        stage_ok(b0, *self, lp, p),
+                        self.node_buffer@ == cd + prov_nodes(b0.oov_providers@, *b0.input, p, bd, __ip as int),
+                        created.bits == prov_bits(b0.oov_providers@, *b0.input, p, bd, __ip as int),
+                    decreases self.oov_providers@.len() - __ip
+//@  before created = self.provide_oovs(ch_off, #1
+                    let ghost lb = *self.lattice;
+                    let ghost nbb = self.node_buffer@;
+                    proof {
+                        let i = __ip - 1;
+                        let provs = b0.oov_providers@;
+                        let added = provs[i].sp_nodes(*b0.input, p, created);
+                        assert(created == CreatedWords { bits: prov_bits(provs, *b0.input, p, bd, i) });
+                        let donep = prov_nodes(provs, *b0.input, p, bd, i);
+                        assert(prov_nodes(provs, *b0.input, p, bd, i + 1) == donep + added);
+                        lemma_prov_prefix(provs, *b0.input, p, bd, i + 1, provs.len() as int);
+                        lemma_prefix_left(cd, donep + added, cand_oov(b0, p));
+                        lemma_prefix_refl_concat(cd + cand_oov(b0, p), cand_fallback(b0, p));
+                        lemma_prefix_trans(cd + (donep + added), cd + cand_oov(b0, p), cand(b0, p));
+                        assert((cd + donep) + added =~= cd + (donep + added));
+                        lemma_room(b0, lp, *self.lattice, *self.matrix, p, cd + donep, added);
+                    }
+//@  after created = self.provide_oovs(ch_off, #1
+                    proof {
+                        let i = __ip - 1;
+                        let provs = b0.oov_providers@;
+                        let added = provs[i].sp_nodes(*b0.input, p, CreatedWords { bits: prov_bits(provs, *b0.input, p, bd, i) });
+                        lemma_inserted_compose(lp, lb, *self.lattice, nbb, added);
+                        assert(self.node_buffer@ =~= cd + prov_nodes(provs, *b0.input, p, bd, i + 1));
+                    }
+//@  before if created.is_empty() #1
+            let ghost co = cand_oov(b0, p);
+            let ghost bo = bits_oov(b0, p);
+            proof {
+                if !oov_allowed(*b0.input, p) { assert(cd + co =~= cd); }
+                assert(self.node_buffer@ == cd + co && created.bits == bo);
+            }
+//@  before created = self.provide_oovs(ch_off, #2
+                let ghost lb2 = *self.lattice;
+                proof {
+                    assert(created == CreatedWords { bits: 0 });
+                    let added = cand_fallback(b0, p);
+                    assert(cand(b0, p) == (cd + co) + added);
+                    assert(((cd + co) + added).subrange(0, ((cd + co) + added).len() as int) =~= (cd + co) + added);
+                    lemma_room(b0, lp, lb2, *self.matrix, p, cd + co, added);
+                }
+//@  after created = self.provide_oovs(ch_off, #2
+                proof { lemma_inserted_compose(lp, lb2, *self.lattice, cd + co, cand_fallback(b0, p)); }
+//@  before if created.is_empty() #2
+            proof {
+                if bo != 0 { assert(cand(b0, p) =~= cd + co); }
+                assert(self.node_buffer@ == cand(b0, p));
+                assert(created.bits == bits_final(b0, p));
+                lemma_position_done(b0, lp, *self.lattice, p);
+                assert forall|e: int, k: int| has(*self.lattice, e, k) implies (#[trigger] node_at(*self.lattice, e, k)).begin <= p + 1 by {}
+            }
+//@  afterloop 3
+            // (hint position only)
+//@  before self.lattice.connect_eos(self.matrix)?;
+        let ghost le = *self.lattice;
+        proof { lemma_no_overflow(*self.lattice, *self.matrix, eos_node(*self.lattice)); }
+//@  atend
+        proof {
+            let lz = *self.lattice;
+            assert(lz.ends == le.ends && lz.ends_full == le.ends_full && lz.indices == le.indices && lz.size == le.size);
+            lemma_wf_same(le, lz, *self.matrix);
+            assert(eos_node(lz) == eos_node(le));
+            assert(is_best(lz, *self.matrix, eos_node(lz), lz.eos->Some_0.0, lz.eos->Some_0.1 as int));
+            assert(lattice_is(b0, lz, nch));
+            assert(__it == nch);
+        }
+//@end
+}
 } // verus!
 fn main() {}
